@@ -24,13 +24,15 @@ import (
 
 // C20: saving a package writes exactly its files, unchanged unless edited.
 
-var c20Pool = []string{"call", "blank", "dotted", "typepos", "@usesXa", "@usesXb"}
+var c20Pool = []string{"call", "blank", "dotted", "typepos", "@usesXa", "@usesXb", "@linedir"}
 
 // two files that use different packages with the same name (x): an alias generated for one file must
 // not leak into another
 var c20Inline = map[string]string{
 	"@usesXa": "package a\n\nimport \"a.b/x\"\n\nvar va = x.V\n",
 	"@usesXb": "package a\n\nimport \"c.d/x\"\n\nvar vb = x.V\n\nvar wb = x.K\n",
+	// generated-code style: a line directive above the package clause names another file
+	"@linedir": "//line grammar.y:1\npackage a\n\nimport \"fmt\"\n\nvar g = fmt.Sprint(1)\n",
 }
 
 type c20Case struct {
@@ -44,7 +46,7 @@ func init() {
 	core.Register(&core.Prop{
 		ID:    "C20",
 		Level: "fault_enumeration",
-		Rule: "hand-built decorator.Package values (1-3 files chosen from 6 import-bearing canonical sources (two of which use different packages of the same name), in 1-2 directories of a fresh temporary tree that also holds unrelated files) x every assignment of {unedited, declaration needing a new import appended, last declaration removed, declarations referring to two equally named packages appended} to the files " +
+		Rule: "hand-built decorator.Package values (1-3 files chosen from 7 import-bearing canonical sources (two use different packages of the same name, one carries a //line directive above its package clause), in 1-2 directories of a fresh temporary tree that also holds unrelated files) x every assignment of {unedited, declaration needing a new import appended, last declaration removed, declarations referring to two equally named packages appended} to the files " +
 			"x every position of the package-name resolver's call sequence failed (choice tree, one failure), through Package.SaveWithResolver on the real file system; oracle: directory snapshot (paths, bytes, modes) before/after: no path appears or disappears, " +
 			"each saved file equals an independently computed import-managed print of a clone, unedited files are byte-identical, on failure the error is returned (wrapping the resolver's), the failing file and every later file are untouched; non-trivial = case with an edit or a failure",
 		Assumptions: []string{"decorator.Load itself (go/packages) is not exercised: packages are built by hand with the same Decorator/Filenames/Syntax fields Load fills in"},
